@@ -88,8 +88,16 @@ pub struct Point {
 }
 
 impl Point {
+    pub fn who(&self) -> &'static str {
+        if self.call == Call::Relay {
+            ["c2s", "s2c"][self.side as usize]
+        } else {
+            SIDE_NAME[self.side as usize]
+        }
+    }
+
     pub fn show(&self) -> String {
-        format!("{}.{}#{}", SIDE_NAME[self.side as usize], CALL_NAME[self.call as usize], self.ord)
+        format!("{}.{}#{}", self.who(), CALL_NAME[self.call as usize], self.ord)
     }
 }
 
@@ -141,7 +149,7 @@ pub fn plan_class(p: &Plan, applied: &[bool]) -> String {
         .filter(|(_, a)| **a)
         .map(|((pt, d), _)| {
             let dn = if d.is_pend() { "pend" } else { DEV_NAME[*d as usize] };
-            format!("{}.{}.{}", SIDE_NAME[pt.side as usize], CALL_NAME[pt.call as usize], dn)
+            format!("{}.{}.{}", pt.who(), CALL_NAME[pt.call as usize], dn)
         })
         .collect();
     v.sort();
